@@ -60,6 +60,13 @@ def Warn.name : Warn → String
 
 /-! ## `_directive_re` as a scanner -/
 
+/-- the text of `_directive_re` (compiled with `re.VERBOSE`) that the scanner below was written against;
+    `Props.C11.regex_pin` compares it with the live pattern on every run -/
+def pinnedDirectiveRe : String := "\n    (?P<literal> [^%]+ ) |\n    (\n        %\n        (?P<index> [0-9]+[$] )?\n        (?P<flags> [#0 +'I-]* )\n        (?:\n            (?P<width> [1-9][0-9]* ) |\n            (?P<varwidth> [*] ) (?P<varwidth_index> [0-9]+[$] )?\n        )?\n        (?:\n            [.]\n            (?:\n                (?P<precision> [0-9]* ) |\n                (?P<varprec> [*] ) (?P<varprec_index> [0-9]+[$] )?\n            )\n        )?\n        (?:\n            (?P<length>\n                hh? | ll? | [qjzZt] | L\n            )?\n            (?P<conversion>\n                [diouxXeEfFgGaAcsCSpnm%]\n            ) |\n            < (?: PRI (?P<c99conv>[diouxX]) (?P<c99len> (?:LEAST|FAST)?(?:8|16|32|64)|MAX|PTR) ) >\n        )\n    )\n"
+
+/-- `re.VERBOSE | re.UNICODE` -/
+def pinnedDirectiveReFlags : Nat := 96
+
 /-- longest prefix whose elements satisfy `p`, and the rest (a greedy `[class]*`) -/
 def spanP {α : Type} (p : α → Bool) : List α → List α × List α
   | [] => ([], [])
